@@ -142,7 +142,8 @@ func (p *Parser) Parse() (al align.Alignment, err error) {
 			currentnbseqs = 0
 		}
 
-		if tok != IDENTIFIER && tok != NUMERIC {
+		// (inside the blocks the word CLUSTAL can only be a sequence name)
+		if tok != IDENTIFIER && tok != NUMERIC && tok != CLUSTAL {
 			err = errors.New("we expect a sequence identifier here")
 			return
 		}
@@ -154,7 +155,7 @@ func (p *Parser) Parse() (al align.Alignment, err error) {
 		}
 
 		tok, lit = p.scan()
-		if tok != IDENTIFIER {
+		if tok != IDENTIFIER && tok != CLUSTAL {
 			err = errors.New("we expect a sequence here")
 			return
 		}
